@@ -43,6 +43,10 @@ CFG = {
         "locHash is modelled as repaired (defect 21: reduce, then absolute value): in range for every hash, no "
         "call panics (c15_no_call_panics; the monitors count a panicking call as a violation); the code before the "
         "repair is kept as loc_prefix with c15_lochash_prefix_refuted (hash MinInt, 3 workers: index -2); the "
+        "a callback that fails AND hands back a non-nil value (fault kinds FErrV / FNFV of the model) is a failed "
+        "callback like FErr / FNF - same store, same answer, the value goes nowhere "
+        "(c15_value_with_error_is_an_error; the coherence theorems quantify over every fault list, these kinds "
+        "included; the harness store hands back 990000042, which is no row of the store); "
         "a cached nil stands for 'the store holds nothing for the key' (store row absent = nil), so coherence with "
         "nil values is the same equation; context cancellation by a callback is exercised in sequential histories; in scheduled runs the scheduler itself "
         "cancels the context of the job a worker is parked in (machine label GAbandon: the caller gets the context's "
@@ -77,6 +81,12 @@ CFG = {
         "string / plain key type, spin barrier before every call, map facade: every goroutine's observation is an "
         "ordinary sequential case of its keys (per key the history is sequential and keys do not interact); "
         "non-trivial = at least 6 labels and (a fast-path hit or >= 3 jobs). "
+        "value together with an error (class seq/value-with-error, deterministic, emitted last, draws nothing from the "
+        "run's random stream): 18 fixed sequential histories (2 scripts x map / LRU 1, 2, 100 facades, logging and "
+        "plain construction, 1/2/3/5 workers, six key types) whose store callbacks FAIL and hand back a non-nil "
+        "value next to their error (fault kinds FErrV / FNFV; ORM style 'return &row, err') at every callback position - "
+        "the load of Get / Update / UpdOrAdd on a miss for a present and an absent row, update, add, upsert, the "
+        "reload of upsert-then-load, delete, miss and hit paths - each followed by a probe Get whose load fails. "
         "distinct = distinct (configuration, inputs, observation)"
     ),
     "trusted": [
